@@ -497,7 +497,10 @@ def antichain_link(ctx, m, out):
     if not set(g.source_sink_edges) <= ign:
         return "get_width was called without the synthetic source/sink edges in its ignore list"
     wf = {e: 1 for e in g.edges() if e not in ign}
-    cost, A = g.compute_max_edge_antichain(get_antichain=True, weight_function=wf)
+    try:
+        cost, A = g.compute_max_edge_antichain(get_antichain=True, weight_function=wf)
+    except Exception as e:       # the real method failing on the weights get_width itself uses is a result, not a harness error
+        return f"compute_max_edge_antichain raised {type(e).__name__}: {str(e)[:80]} on the weight function get_width builds"
     if cost != rec["width"] or len(A) != cost or len(set(A)) != len(A):
         return f"antichain {A} does not have the size of the width {rec['width']}"
     desc = {v: nx.descendants(g, v) | {v} for v in g.nodes()}
@@ -512,7 +515,10 @@ def antichain_link(ctx, m, out):
         return "certified"
     # the code's antichain leans on synthetic / flow-less edges: is there one of the same size that does not?
     wf2 = {e: 1 for e in wf if e[0] != g.source and e[1] != g.sink and g.edges[e].get(attr, 0) > 0}
-    cost2, A2 = g.compute_max_edge_antichain(get_antichain=True, weight_function=wf2) if wf2 else (0, [])
+    try:
+        cost2, A2 = g.compute_max_edge_antichain(get_antichain=True, weight_function=wf2) if wf2 else (0, [])
+    except Exception as e:
+        return f"compute_max_edge_antichain raised {type(e).__name__}: {str(e)[:80]}"
     ok2 = len(A2) == cost2 and len(set(A2)) == len(A2) and real_pos(A2) and \
         all(not (c in desc[b] or a in desc[d]) for (a, b), (c, d) in itertools.combinations(A2, 2))
     if ok2 and cost2 == rec["width"]:
